@@ -57,6 +57,32 @@ class ScriptedRng:
         assert low == 0
         self.lines.append(f"RI {high} {x}"); self.values.append(x); return x
 
+    # the rest of numpy's Generator that a rewrite of the code under test might reach for, built on the two scripted primitives so that such a
+    # run goes on and the oracles get to judge it (the model knows nothing of these: the correspondence is broken by their use anyway)
+    def uniform(self, low=0.0, high=1.0):
+        return low + (high - low) * self.random()
+
+    def binomial(self, n, p):
+        return sum(1 for _ in range(int(n)) if self.random() <= p)
+
+    def choice(self, a, size=None, replace=True, p=None):
+        pool = list(range(int(a))) if isinstance(a, (int,)) or hasattr(a, '__index__') else list(a)
+        if size is None: return pool[self.integers(len(pool))]
+        out = []
+        for _ in range(int(size)):
+            k = self.integers(len(pool)); out.append(pool[k])
+            if not replace: pool.pop(k)
+        return out
+
+    def permutation(self, x):
+        pool = list(range(int(x))) if hasattr(x, '__index__') else list(x)
+        out = []
+        while pool: out.append(pool.pop(self.integers(len(pool))))
+        return out
+
+    def shuffle(self, x):
+        x[:] = self.permutation(list(x))
+
 
 class ReplayRng:
     """hands out a recorded sequence of values again"""
